@@ -113,15 +113,14 @@ impl IterConfig for PartitionIterConfig {
             None => return Ok(None),
         };
 
+        // A segment whose first sequence lies after the start position holds nothing for a
+        // reverse scan, and for a forward scan only the oldest segment can be its beginning
         let key = match partition_index.get_key(self.partition_id)? {
-            Some(key) if key.sequence_min <= from_position || segment_index == 0 => key,
-            Some(key)
-                if matches!(dir, IterDirection::Reverse) && segment_index == segments_len - 1 =>
-            {
-                key
-            }
+            Some(key) if key.sequence_min <= from_position => key,
+            Some(key) if matches!(dir, IterDirection::Forward) && segment_index == 0 => key,
             _ => return Ok(None),
         };
+        let _ = segments_len;
 
         let sequence_min = key.sequence_min;
         let offsets = partition_index.get_from_key(key)?;
@@ -205,15 +204,14 @@ impl IterConfig for StreamIterConfig {
             None => return Ok(None),
         };
 
+        // A segment whose first version lies after the start position holds nothing for a
+        // reverse scan, and for a forward scan only the oldest segment can be its beginning
         let key = match stream_index.get_key(&self.stream_id)? {
-            Some(key) if key.version_min <= from_position || segment_index == 0 => key,
-            Some(key)
-                if matches!(dir, IterDirection::Reverse) && segment_index == segments_len - 1 =>
-            {
-                key
-            }
+            Some(key) if key.version_min <= from_position => key,
+            Some(key) if matches!(dir, IterDirection::Forward) && segment_index == 0 => key,
             _ => return Ok(None),
         };
+        let _ = segments_len;
 
         let version_min = key.version_min;
         let offsets = stream_index.get_from_key(key)?;
